@@ -572,6 +572,13 @@ func (w *watch) watch(fsw *fsnotify.Watcher, m *sync.Mutex, refresh func() error
 			verifPoint("watch.prelock", m, event.Name, event.Op.String())
 			m.Lock()
 			verifPoint("watch.locked", m, event.Name, event.Op.String())
+			if w.watcher != watch {
+				// Our watcher has been replaced by a reconfiguration while
+				// we were waiting for the lock. The new watcher, tracked
+				// directories and dirErrors are not ours to update.
+				m.Unlock()
+				return
+			}
 			if event.Op == fsnotify.Remove && w.tracked[event.Name] {
 				w.update(dirErrors, event.Name)
 			} else {
